@@ -63,6 +63,8 @@ Definition rarr (p : slice) (a n : nat) : res value :=
 Definition rbyte (p : slice) (i : nat) : res value := bind (idx p i) (fun b => Ok (VN b)).
 Definition rbe16 (p : slice) (a : nat) : res value := bind (be16_at p a) (fun n => Ok (VN n)).
 Definition rbe32 (p : slice) (a : nat) : res value := bind (be32_at p a) (fun n => Ok (VN n)).
+(* a range, with the empty range canonical (nil and empty slices are not distinguished by the observation) *)
+Definition vr (o n : nat) : value := if Nat.eqb n 0 then VNil else VR o n.
 (* p[i] & mask != 0 *)
 Definition rbit (p : slice) (i : nat) (mask : N) : res value :=
   bind (idx p i) (fun b => Ok (VB (negb (N.land b mask =? 0)))).
